@@ -1,4 +1,369 @@
+//! C17 — server-sent event streams deliver every message intact and end properly.
+//!
+//! Scenario (vocabulary of specs/Sse.tla):
+//!   {"script": ["P"|"Y",..], "msgs": [[token,..],..], "hist": [action,..] | [], "seed": n,
+//!    "pol": {"delay": [d,..], "spur": [s,..]}, "wmode": 0|1|2, "via": "direct"|"router"|"from"|"router-from"}
+//! `script` is the producer's program ("P" push the next message through the real queue handle, "Y" return Pending
+//! until the harness fires the awaited event; the end of the script is the end of the future), `hist` the schedule
+//! TLC generated (sequence of Sse action names: the harness performs the environment actions Fire / Spurious exactly
+//! between the same steps of the real code); with an empty `hist` the environment follows the policy `pol`
+//! (per yield: fire after `delay` further steps of the code, -1 = when the task is idle; `spur` spurious wake-ups first).
+//!
+//! The real thing is built with the public API: `DataStream::new(|handle| producer)` -> `into_response()` (or returned
+//! by a handler of a real `Ohkami` when via = "router") -> REAL `Response::send` into an in-memory `AsyncWrite`.
+//! The send future is polled by hand with a flag waker: no timers, no sleeps, fully deterministic.
+//!
+//! Observation: head facts, result of the strict de-chunker (util::parse_response), the decoded event-stream text
+//! tokenised into the atoms of Sse.tla (the TLA+ operator ParseES decides what it means), and the log of steps
+//! (one Sse action name per step of the real run) for the scheduling half of Trace_Sse.
+use crate::util::{self, arr, s, Rng};
+use ohkami::__verif as v;
+use ohkami::prelude::*;
+use ohkami::sse::DataStream;
 use serde_json::{json, Value};
-pub fn run(_scn: &Value) -> Value { json!({"kind": "unimplemented"}) }
-#[allow(dead_code)]
-pub fn gen(_rng: &mut crate::util::Rng, i: usize) -> Value { json!({"id": i}) }
+use std::future::Future;
+use std::pin::Pin;
+use std::sync::atomic::{AtomicBool, Ordering};
+use std::sync::{Arc, Mutex};
+use std::task::{Context, Poll, Wake, Waker};
+
+// ------------------------------------------------------------------ concretisation table (trusted base)
+
+fn pick<'a>(seed: u64, salt: u64, xs: &[&'a str]) -> &'a str { xs[((seed.wrapping_mul(0x9E3779B97F4A7C15) >> 17).wrapping_add(salt) % xs.len() as u64) as usize] }
+
+/// message token -> concrete text.  Text tokens get one of several representatives (by seed); the representatives of
+/// different tokens start with different characters and none contains a structural character, so that a run of text on
+/// the wire splits uniquely into them again (`tokenise`).
+fn concrete(tok: &str, seed: u64) -> Option<String> {
+    Some(match tok {
+        "LF" => "\n".into(), "CR" => "\r".into(), "CRLF" => "\r\n".into(), "SP" => " ".into(), "COLON" => ":".into(),
+        "BOM" => "\u{FEFF}".into(),
+        "DATA" => "data:".into(), "EV" => "event:".into(), "ID" => "id:".into(), "RETRY" => "retry:".into(),
+        "x" => pick(seed, 0, &["Hello", "Xa", "M"]).into(),
+        "y" => pick(seed, 1, &["World", "Yb9", "Q"]).into(),
+        "u" => pick(seed, 2, &["\u{dc}n\u{ef}", "\u{65e5}\u{672c}\u{8a9e}", "\u{2713}\u{1f642}"]).into(),
+        "u2" => pick(seed, 3, &["\u{3a9}mega", "\u{e9}\u{e9}", "\u{1f680}"]).into(),
+        "n" => pick(seed, 4, &["42", "7", "1000"]).into(),
+        "n2" => pick(seed, 5, &["0", "99"]).into(),
+        "tab" => "\t".into(), "ls" => "\u{2028}".into(), "nel" => "\u{85}".into(), "nul" => "\0".into(),
+        "ff" => "\x0c".into(), "vt" => "\x0b".into(),
+        _ => {
+            // L<k>: ASCII text of exactly k bytes; W<k>: multi-byte text of k characters
+            if let Some(k) = tok.strip_prefix('L').and_then(|k| k.parse::<usize>().ok()) {
+                if k < 2 { return None }
+                let mut t = String::with_capacity(k); t.push('Z');
+                for j in 0..k - 2 { t.push((b'a' + ((j as u64 + seed) % 26) as u8) as char) }
+                t.push('$'); t
+            } else if let Some(k) = tok.strip_prefix('W').and_then(|k| k.parse::<usize>().ok()) {
+                if k < 2 { return None }
+                let mut t = String::new(); t.push('\u{178}');
+                for j in 0..k - 2 { t.push(['\u{e9}', '\u{4e16}', '\u{1f600}'][(j + seed as usize) % 3]) }
+                t.push('\u{20ac}'); t
+            } else { return None }
+        }
+    })
+}
+fn is_text_token(tok: &str) -> bool { !matches!(tok, "LF" | "CR" | "CRLF" | "SP" | "COLON" | "BOM" | "DATA" | "EV" | "ID" | "RETRY") }
+
+/// event-stream text -> atoms of Sse.tla
+fn tokenise(text: &str, table: &[(String, String)]) -> Vec<String> {
+    let mut out = vec![];
+    let mut rest = text;
+    let mut unknown = String::new();
+    fn flush(u: &mut String, out: &mut Vec<String>) { if !u.is_empty() { out.push(format!("?{}", util::clip(u, 40))); u.clear() } }
+    while let Some(c) = rest.chars().next() {
+        let special = match c { '\n' => Some("<LF>"), '\r' => Some("<CR>"), ' ' => Some("<SP>"), ':' => Some("<COLON>"), '\u{FEFF}' => Some("<BOM>"), _ => None };
+        if let Some(a) = special { flush(&mut unknown, &mut out); out.push(a.into()); rest = &rest[c.len_utf8()..]; continue }
+        let best = table.iter().filter(|(conc, _)| rest.starts_with(conc.as_str())).max_by_key(|(conc, _)| conc.len());
+        match best {
+            Some((conc, atom)) => { flush(&mut unknown, &mut out); out.push(atom.clone()); rest = &rest[conc.len()..] }
+            None => { unknown.push(c); rest = &rest[c.len_utf8()..] }
+        }
+    }
+    flush(&mut unknown, &mut out);
+    out
+}
+
+// ------------------------------------------------------------------ controller shared by producer, writer and executor
+
+struct Flag(AtomicBool);
+impl Wake for Flag { fn wake(self: Arc<Self>) { self.0.store(true, Ordering::SeqCst) } fn wake_by_ref(self: &Arc<Self>) { self.0.store(true, Ordering::SeqCst) } }
+
+struct Ctl {
+    hist: Vec<String>, cur: usize, forced: bool, stuck: i64,
+    events: Vec<String>,
+    waiting: bool, fired: bool, stored: Option<Waker>, task: Waker,
+    delays: Vec<i64>, spurs: Vec<i64>, yields: usize, countdown: i64, spur_left: i64,
+    fires: usize, spurious: usize, writer_pending: bool,
+}
+impl Ctl {
+    fn do_fire(&mut self) { self.fired = true; self.fires += 1; self.events.push("Fire".into()); if let Some(w) = self.stored.take() { w.wake() } }
+    fn do_spur(&mut self) { self.spurious += 1; self.events.push("Spurious".into()); self.task.wake_by_ref() }
+    fn steering(&self) -> bool { self.forced && self.stuck < 0 }
+    /// environment actions that the schedule places before the next step of the code
+    fn env(&mut self) {
+        if self.steering() {
+            while let Some(a) = self.hist.get(self.cur).cloned() {
+                if a == "Fire" { if !(self.waiting && !self.fired) { self.stuck = self.cur as i64; return } self.do_fire(); self.cur += 1 }
+                else if a == "Spurious" { self.do_spur(); self.cur += 1 }
+                else { break }
+            }
+        } else if self.waiting && !self.fired {
+            if self.countdown == 0 { self.do_fire() } else if self.countdown > 0 { self.countdown -= 1 }
+        }
+    }
+    /// a step of the code under test has been observed
+    fn code(&mut self, name: &str) {
+        if self.steering() {
+            if self.hist.get(self.cur).map(|a| a == name).unwrap_or(false) { self.cur += 1 } else { self.stuck = self.cur as i64; self.countdown = -1; self.spur_left = 0 }
+        }
+        self.events.push(name.into());
+    }
+    fn on_yield(&mut self, w: Waker) {
+        self.waiting = true; self.fired = false; self.stored = Some(w);
+        let k = self.yields; self.yields += 1;
+        self.countdown = self.delays.get(k % self.delays.len().max(1)).copied().unwrap_or(-1);
+        self.spur_left = self.spurs.get(k % self.spurs.len().max(1)).copied().unwrap_or(0);
+    }
+}
+type Shared = Arc<Mutex<Ctl>>;
+
+// ------------------------------------------------------------------ the scripted producer future
+
+/// the queue handle as the handler gets it: from `DataStream::new` or from `ohkami_lib::stream::queue`
+enum Handle { Sse(ohkami::sse::handle::Stream<String>), Raw(ohkami_lib::stream::impls::Queue<String>) }
+struct Producer { ctl: Shared, handle: Handle, script: Vec<u8>, ip: usize, msgs: Vec<String>, next_msg: usize }
+impl Future for Producer {
+    type Output = ();
+    fn poll(mut self: Pin<&mut Self>, cx: &mut Context<'_>) -> Poll<()> {
+        let this = &mut *self;
+        let ctl = this.ctl.clone();
+        let mut c = ctl.lock().unwrap();
+        c.env();
+        if c.waiting && !c.fired {
+            c.code("PStill");
+            c.stored = Some(cx.waker().clone());
+            return Poll::Pending
+        }
+        c.waiting = false; c.fired = false; c.stored = None;
+        c.code("PCont");
+        loop {
+            c.env();
+            match this.script.get(this.ip).copied() {
+                Some(b'P') => {
+                    let m = this.msgs[this.next_msg].clone(); this.next_msg += 1; this.ip += 1;
+                    match &mut this.handle { Handle::Sse(h) => h.send(m), Handle::Raw(q) => q.push(m) }   // the real queue handle
+                    c.code("PPush");
+                }
+                Some(_) => {
+                    this.ip += 1;
+                    c.on_yield(cx.waker().clone());
+                    c.code("PYield");
+                    return Poll::Pending
+                }
+                None => { c.code("PEnd"); return Poll::Ready(()) }
+            }
+        }
+    }
+}
+
+// ------------------------------------------------------------------ the connection
+
+struct Conn { ctl: Shared, out: Vec<u8>, unit_start: usize, units: usize, wmode: i64, part: usize, toggle: bool }
+impl tokio::io::AsyncWrite for Conn {
+    fn poll_write(mut self: Pin<&mut Self>, _cx: &mut Context<'_>, buf: &[u8]) -> Poll<std::io::Result<usize>> {
+        let n = match self.wmode {
+            1 => buf.len().min(self.part.max(1)),
+            2 => { self.toggle = !self.toggle;
+                   // not ready this time; the executor polls again without any wake-up (so the task's wake flag only
+                   // ever carries wake-ups of the stream)
+                   if self.toggle { self.ctl.lock().unwrap().writer_pending = true; return Poll::Pending }
+                   buf.len().min(self.part.max(1) * 3) }
+            _ => buf.len(),
+        };
+        self.out.extend_from_slice(&buf[..n]);
+        Poll::Ready(Ok(n))
+    }
+    fn poll_flush(mut self: Pin<&mut Self>, _cx: &mut Context<'_>) -> Poll<std::io::Result<()>> {
+        if self.out.len() > self.unit_start {
+            let name = if self.units == 0 { "CHead" } else if &self.out[self.unit_start..] == b"0\r\n\r\n" { "CFinish" } else { "CDeliver" };
+            { let mut c = self.ctl.lock().unwrap(); c.env(); c.code(name); }
+            self.units += 1; self.unit_start = self.out.len();
+        }
+        Poll::Ready(Ok(()))
+    }
+    fn poll_shutdown(self: Pin<&mut Self>, _cx: &mut Context<'_>) -> Poll<std::io::Result<()>> { Poll::Ready(Ok(())) }
+}
+
+// ------------------------------------------------------------------ run
+
+fn make_stream(ctl: Shared, script: Vec<u8>, msgs: Vec<String>, from_queue: bool) -> DataStream {
+    if from_queue {
+        // `DataStream::from(stream)` over `ohkami_lib::stream::queue`: the same QueueStream behind the `map(Data::encode)` adapter
+        DataStream::from(ohkami_lib::stream::queue(move |q| Producer { ctl, handle: Handle::Raw(q), script, ip: 0, msgs, next_msg: 0 }))
+    } else {
+        DataStream::new(move |h| Producer { ctl, handle: Handle::Sse(h), script, ip: 0, msgs, next_msg: 0 })
+    }
+}
+
+fn chunk_sizes(raw: &[u8]) -> Vec<usize> {
+    let mut at = 0; let mut v = vec![];
+    while let Some(le) = util::find(&raw[at..], b"\r\n") {
+        let Ok(line) = std::str::from_utf8(&raw[at..at + le]) else { break };
+        let Ok(sz) = usize::from_str_radix(line.split(';').next().unwrap_or("").trim(), 16) else { break };
+        v.push(sz); at += le + 2 + sz + 2;
+        if sz == 0 || at > raw.len() { break }
+    }
+    v
+}
+
+fn err_class(e: &str) -> String {
+    if e.is_empty() { return "ok".into() }
+    let cut = e.find(|c| c == '"' || c == ':' || c == '[').unwrap_or(e.len());
+    e[..cut].trim().replace(' ', "-")
+}
+
+pub fn run(scn: &Value) -> Value {
+    let seed = scn["seed"].as_u64().unwrap_or(0);
+    let script: Vec<u8> = arr(&scn["script"]).iter().map(|x| if s(x) == "P" { b'P' } else { b'Y' }).collect();
+    let npush = script.iter().filter(|b| **b == b'P').count();
+    let mut msgs = vec![]; let mut table: Vec<(String, String)> = vec![];
+    for w in ["data", "event", "id", "retry"] { table.push((w.to_string(), format!("={w}"))) }
+    for m in arr(&scn["msgs"]) {
+        let mut text = String::new();
+        for t in arr(m) {
+            let Some(c) = concrete(s(t), seed) else { return json!({"kind": "tool-error", "what": format!("unknown token {}", s(t))}) };
+            if is_text_token(s(t)) && !table.iter().any(|(_, a)| a[1..] == *s(t)) { table.push((c.clone(), format!("={}", s(t)))) }
+            text.push_str(&c);
+        }
+        msgs.push(text);
+    }
+    if msgs.len() != npush { return json!({"kind": "tool-error", "what": "number of messages differs from the number of pushes"}) }
+    // the table must be prefix-free, or the wire could not be read back uniquely
+    for (i, (a, _)) in table.iter().enumerate() { for (j, (b, _)) in table.iter().enumerate() {
+        if i != j && b.starts_with(a.as_str()) { return json!({"kind": "tool-error", "what": format!("concretisation table not prefix-free: {a:?} {b:?}")}) }
+    } }
+    let hist: Vec<String> = arr(&scn["hist"]).iter().map(|x| s(x).to_string()).collect();
+    let delays: Vec<i64> = arr(&scn["pol"]["delay"]).iter().map(util::i).collect();
+    let spurs: Vec<i64> = arr(&scn["pol"]["spur"]).iter().map(util::i).collect();
+    let wmode = util::i(&scn["wmode"]);
+    let via = match s(&scn["via"]) { "router" => "router", "from" => "from", "router-from" => "router-from", _ => "direct" };
+    let from_queue = via.ends_with("from");
+
+    let flag = Arc::new(Flag(AtomicBool::new(false)));
+    let waker = Waker::from(flag.clone());
+    let ctl: Shared = Arc::new(Mutex::new(Ctl {
+        forced: !hist.is_empty(), hist, cur: 0, stuck: -1, events: vec![], waiting: false, fired: false, stored: None, task: waker.clone(),
+        delays, spurs, yields: 0, countdown: -1, spur_left: 0, fires: 0, spurious: 0, writer_pending: false,
+    }));
+
+    // the response, through the public API
+    let res: Response = if via.starts_with("router") {
+        let (c2, sc2, m2) = (ctl.clone(), script.clone(), msgs.clone());
+        let o = Ohkami::new(("/sse".GET(move || { let (c, sc, m) = (c2.clone(), sc2.clone(), m2.clone()); async move { make_stream(c, sc, m, from_queue) } }),));
+        let router = v::finalize(o);
+        util::block_on(async {
+            let mut req = v::VRequest::new();
+            let mut rd: &[u8] = b"GET /sse HTTP/1.1\r\nHost: x\r\nAccept: text/event-stream\r\n\r\n";
+            match req.read(&mut rd).await { Ok(Some(())) => req.handle(&router).await, Ok(None) => Response::new(Status::Gone), Err(e) => e }
+        })
+    } else {
+        let mut r = make_stream(ctl.clone(), script.clone(), msgs.clone(), from_queue).into_response();
+        v::complete(&mut r);
+        r
+    };
+
+    let mut conn = Conn { ctl: ctl.clone(), out: vec![], unit_start: 0, units: 0, wmode, part: 1 + (seed % 7) as usize, toggle: false };
+    let (mut finished, mut stalled, mut polls) = (false, false, 0usize);
+    {
+        let mut fut = Box::pin(v::send(res, &mut conn));
+        let mut cx = Context::from_waker(&waker);
+        loop {
+            polls += 1;
+            if polls > 200_000 { break }
+            match fut.as_mut().poll(&mut cx) {
+                Poll::Ready(_) => { finished = true; break }
+                Poll::Pending => {
+                    let mut c = ctl.lock().unwrap();
+                    if c.writer_pending { c.writer_pending = false; continue }      // the connection was not ready: not a step of the stream
+                    c.env(); c.code("CSuspend");
+                    // the task is suspended: only a wake-up makes the executor poll it again
+                    c.env();
+                    if !c.steering() && !flag.0.load(Ordering::SeqCst) {
+                        if c.spur_left > 0 { c.spur_left -= 1; c.do_spur() }
+                        else if c.waiting && !c.fired { c.do_fire() }
+                    }
+                    if !flag.0.swap(false, Ordering::SeqCst) { stalled = true; break }
+                    c.code("CResume");
+                }
+            }
+        }
+    }
+    let c = ctl.lock().unwrap();
+    let raw = conn.out;
+    let p = util::parse_response(&raw, false);
+    let get = |n: &str| p.headers.iter().filter(|(k, _)| k.eq_ignore_ascii_case(n)).map(|(_, v)| v.clone()).collect::<Vec<_>>();
+    let (te, cl, ct) = (get("Transfer-Encoding"), get("Content-Length"), get("Content-Type"));
+    let trailing = if p.error.is_empty() { raw.len() as i64 - p.consumed as i64 } else { 0 };
+    let (utf8, text) = match std::str::from_utf8(&p.body) { Ok(t) => (true, t.to_string()), Err(_) => (false, String::new()) };
+    let toks = tokenise(&text, &table);
+    let head_end = util::find(&raw, b"\r\n\r\n").map(|i| i + 4).unwrap_or(raw.len());
+    let sizes = chunk_sizes(&raw[head_end..]);
+    let digits = sizes.iter().map(|z| format!("{:x}", z).len()).max().unwrap_or(0);
+    json!({
+        "kind": "sse", "via": via,
+        "status": p.status as i64, "te": te.join(",").to_ascii_lowercase(), "cl": if cl.is_empty() { "none".to_string() } else { cl.join(",") },
+        "ct": ct.iter().map(|c| c.split(';').next().unwrap_or("").trim().to_ascii_lowercase()).collect::<Vec<_>>().join(","),
+        "framing": p.framing, "dechunk": err_class(&p.error), "trailing": trailing, "utf8": utf8,
+        "toks": toks, "text": util::clip(&text, 240), "concrete": msgs.iter().map(|m| util::clip(m, 80)).collect::<Vec<_>>(),
+        "nchunks": sizes.len() as i64, "maxdigits": digits as i64, "bodylen": p.body.len() as i64,
+        "events": c.events, "finished": finished, "stalled": stalled, "polls": polls as i64,
+        "forced": if !c.forced { "free".to_string() } else if c.stuck >= 0 { format!("stuck@{}", c.stuck) } else if c.cur == c.hist.len() { "ok".to_string() } else { format!("short@{}", c.cur) },
+        "fires": c.fires as i64, "spurious": c.spurious as i64,
+    })
+}
+
+// ------------------------------------------------------------------ random scenarios (same vocabulary, beyond TLC's bounds)
+
+const PLAIN: &[&str] = &["x", "y", "u", "u2", "n", "n2", "tab", "ls", "nel", "nul", "ff", "vt"];
+const STRUCT: &[&str] = &["LF", "CR", "CRLF", "SP", "COLON", "DATA", "EV", "ID", "RETRY", "BOM"];
+
+fn long_token(rng: &mut Rng) -> String {
+    // message.len() = 6 + text + 2: sizes around the hex digit boundaries 0xf/0x10, 0xff/0x100, 0xfff/0x1000, 0xffff/0x10000
+    let around = *rng.pick(&[16usize, 16, 256, 256, 4096, 4096, 65536]);
+    let k = (around as i64 - 8 + rng.range(0, 6) as i64 - 3).max(2) as usize;
+    if rng.chance(1, 4) && around <= 4096 { format!("W{}", (k / 3).max(2)) } else { format!("L{k}") }
+}
+
+pub fn gen(rng: &mut Rng, i: usize) -> Value {
+    // script: up to 30 steps, bursts of pushes, runs of yields, sometimes ending with a non-empty queue
+    let steps = rng.range(0, 30);
+    let mut script: Vec<&str> = vec![];
+    while script.len() < steps {
+        if rng.chance(3, 5) { for _ in 0..rng.range(1, 5) { if script.len() < steps { script.push("P") } } }
+        else { for _ in 0..rng.range(1, 3) { if script.len() < steps { script.push("Y") } } }
+    }
+    let npush = script.iter().filter(|x| **x == "P").count();
+    let mut long_used = false;
+    let mut msgs = vec![];
+    for _ in 0..npush {
+        let len = match rng.below(10) { 0 => 0, 1..=5 => rng.range(1, 4), _ => rng.range(5, 12) };
+        let crfree = rng.chance(1, 2);          // half of the messages stay inside what the encoder handles
+        let mut m: Vec<String> = vec![];
+        for _ in 0..len {
+            let t = if rng.chance(1, 14) && !long_used { long_used = rng.chance(1, 2); long_token(rng) }
+                    else if rng.chance(1, 2) { rng.pick(PLAIN).to_string() }
+                    else { loop { let t = *rng.pick(STRUCT); if !(crfree && t == "CR") { break t.to_string() } } };
+            // two long tokens of the same kind would not be prefix-free: keep at most one L and one W per scenario kind+size
+            m.push(t);
+        }
+        msgs.push(m);
+    }
+    // de-duplicate long tokens that would clash in the table (same leading character, one a prefix of the other is
+    // impossible thanks to the terminator, so nothing to do) — kept simple: all L/W tokens are allowed.
+    let ny = script.iter().filter(|x| **x == "Y").count().max(1);
+    let delay: Vec<i64> = (0..ny).map(|_| *rng.pick(&[-1i64, -1, 0, 0, 1, 2, 3, 5])).collect();
+    let spur: Vec<i64> = (0..ny).map(|_| *rng.pick(&[0i64, 0, 0, 1, 2])).collect();
+    json!({"id": i, "script": script, "msgs": msgs, "hist": [], "seed": rng.below(1 << 30) as i64,
+           "pol": {"delay": delay, "spur": spur}, "wmode": *rng.pick(&[0i64, 0, 1, 2]), "via": *rng.pick(&["direct", "direct", "router", "from", "router-from"])})
+}
